@@ -2,7 +2,7 @@
 # tools/verify_seed.sh <seed dir with patch.diff demo.py meta.json> -> prints one JSON line
 # Confirms a seeded change: applies to /repo HEAD, suite failure set == baseline, demo fails with / passes without,
 # then runs every check against the patched scratch worktree (no evidence written, /repo untouched).
-d="$1"; id=$(echo "$d" | sed -E 's#.*/out-(c[0-9]+)/([^/]+)/?$#\1-\2#')
+d="${1%/}"; id=$(echo "$d" | sed -E 's#.*/out-(c[0-9]+)/([^/]+)/?$#\1-\2#'); case "$id" in */*) id=$(basename "$d");; esac
 patch="$d/patch.diff"; [ -f "$d/patch.ported.diff" ] && patch="$d/patch.ported.diff"
 wt=$(mktemp -d /tmp/seedver.XXXXXX); git -C /repo worktree add --detach "$wt" HEAD -q
 cleanup(){ git -C /repo worktree remove --force "$wt" 2>/dev/null; }
